@@ -41,10 +41,10 @@ EDITS = [
      "            event[\"data\"] = {\n                \"Error\": state.get(\"Error\", \"Unspecified\"),\n                \"Cause\": state.get(\"Cause\", \"Unspecified\"),\n            }\n\n            handle_terminal_state(state_type, event, id)",
      "            event[\"data\"] = {\n                \"Error\": state.get(\"Error\", \"Unspecified\"),\n                \"Cause\": state.get(\"Cause\", \"Unspecified\"),\n            }\n\n            if state.get(\"Cause\"):\n                handle_terminal_state(state_type, event, id)\n            else:\n                self.event_dispatcher.acknowledge(id)",
      "Fail without Cause acknowledges without ending the execution"),
-    ("C03.R1b-doubleack", "C03", "C03.R1b", P + "state_engine.py",
-     "                handle_terminal_state(state_type, event, id)\n            except PathMatchFailure as e:\n                handle_error(state, \"States.Runtime\", str(e))\n                self.event_dispatcher.acknowledge(id)\n\n        def asl_state_Fail():",
-     "                handle_terminal_state(state_type, event, id)\n                self.event_dispatcher.acknowledge(id)\n                self.event_dispatcher.acknowledge(id)\n            except PathMatchFailure as e:\n                handle_error(state, \"States.Runtime\", str(e))\n                self.event_dispatcher.acknowledge(id)\n\n        def asl_state_Fail():",
-     "Succeed acknowledges its event twice more"),
+    ("C03.R1b-nodelete", "C03", "C03.R1b", P + "event_dispatcher.py",
+     "            message = self.unacknowledged_messages[id]\n            message.acknowledge(multiple=False)\n            del self.unacknowledged_messages[id]\n",
+     "            message = self.unacknowledged_messages[id]\n            message.acknowledge(multiple=False)\n",
+     "acknowledge(id) no longer forgets the delivery: a repeated acknowledge acknowledges it twice and the table grows without bound"),
     ("C03.R2-noack", "C03", "C03.R2", P + "state_engine.py",
      "            except PathMatchFailure as e:\n                handle_error(state, \"States.Runtime\", str(e))\n                self.event_dispatcher.acknowledge(id)\n\n        def asl_state_Fail():",
      "            except PathMatchFailure as e:\n                handle_error(state, \"States.Runtime\", str(e))\n\n        def asl_state_Fail():",
@@ -153,10 +153,6 @@ EDITS = [
      "                        reply_to=self.reply_to.name,\n                        correlation_id=correlation_id,",
      "                        reply_to=self.reply_to_queue_name + \"-\",\n                        correlation_id=correlation_id,",
      "RPC requests name a reply queue nobody consumes"),
-    ("C20.R1-iface", "C20", "C20.R1", P + "store.py",
-     "class SimpleStore(dict):\n    \"\"\"\n",
-     "class SimpleStore(dict):\n    def get_cached(self, key, default=None):\n        return self.get(key, default)\n\n    \"\"\"\n",
-     "placeholder"),
     ("C20.R2-prefix", "C20", "C20.R2", P + "store.py",
      "    def __contains__(self, key):\n        k = self.key + \":\" + key\n        return bool(self.redis.exists(k))",
      "    def __contains__(self, key):\n        k = self.key + \"/\" + key\n        return bool(self.redis.exists(k))",
@@ -225,35 +221,36 @@ def main():
     index = {}
     from concurrent.futures import ThreadPoolExecutor
     with ThreadPoolExecutor(12) as ex:
-        futs = {e[0]: ex.submit(build, *e, outdir) for e in EDITS if e[6] != "placeholder"}
+        futs = {e[0]: ex.submit(build, *e, outdir) for e in EDITS if True}
         for eid, fu in futs.items():
             r = fu.result()
             e = [x for x in EDITS if x[0] == eid][0]
             if r:
                 print("%-20s %s" % (eid, r))
             index[eid] = {"property": e[1], "rule": e[2], "what": e[6], "problem": r}
-    for eid, h, subj in regressions(outdir):
-        # which properties catch the regression?
+    def one_regression(item):
+        eid, h, subj = item
         tmp = tempfile.mkdtemp(prefix="st-")
         try:
             shutil.copytree("/repo/asl-workflow-engine", os.path.join(tmp, "asl-workflow-engine"), ignore=shutil.ignore_patterns("__pycache__", "*.pyc"))
             rc, o = sh("git apply %s" % os.path.join(outdir, eid, "patch.diff"), cwd=tmp)
             if rc:
-                index[eid] = {"commit": h, "subject": subj, "problem": "does not apply to HEAD any more (later fix touched the same lines)", "caught_by": []}
-                print("%-20s reverse patch does not apply" % eid)
-                continue
+                return eid, {"commit": h, "subject": subj, "problem": "does not apply to HEAD any more (a later fix touched the same lines)", "caught_by": []}
             caught = []
             for i in range(1, 21):
                 prop = "C%02d" % i
                 rc, out = sh("%s %s --root %s" % (os.path.join(VERIF, "check"), prop, tmp), cwd=VERIF)
                 if rc == 1:
                     caught.append(prop)
-            index[eid] = {"commit": h, "subject": subj, "caught_by": caught, "problem": None if caught else "NOT caught"}
             json.dump({"id": eid, "what": "reverse of " + subj, "caught_by": caught, "origin": "git diff %s %s^" % (h, h)}, open(os.path.join(outdir, eid, "meta.json"), "w"), indent=1)
-            if not caught:
-                print("%-20s NOT caught" % eid)
+            return eid, {"commit": h, "subject": subj, "caught_by": caught, "problem": None if caught else "NOT caught"}
         finally:
             shutil.rmtree(tmp, ignore_errors=True)
+    with ThreadPoolExecutor(6) as ex:
+        for eid, r in ex.map(one_regression, regressions(outdir)):
+            index[eid] = r
+            if r["problem"]:
+                print("%-20s %s" % (eid, r["problem"]))
     json.dump(index, open(os.path.join(outdir, "INDEX.json"), "w"), indent=1)
     ok = sum(1 for v in index.values() if not v.get("problem"))
     print("selftest entries: %d, as expected: %d" % (len(index), ok))
